@@ -11,6 +11,7 @@ import (
 	"math/rand"
 	"net"
 	"reflect"
+	"runtime"
 	"sort"
 	"strings"
 	"sync"
@@ -37,7 +38,8 @@ import (
 //	        then, when the peer closes: Done() closed or not;  S: the bytes the send loop wrote.
 //	sess <pre> <post>
 //	     a second client logs in correctly, writes <pre> on its control stream, reads the replies it is due
-//	     (one Pong per Ping), then writes <post> and reads until the server closes (or 1.5 s pass)
+//	     (one Pong per Ping, one NewProxyResp per NewProxy), then writes <post> and reads until the server closes
+//	     (or 1.5 s pass)
 //	     => T[…] pre=<Struct,…> post=<Struct,…> closed|open alive|dead
 //
 // Everything is event driven: the pipe wrapper sees every Read of the dispatcher; a Read issued after the
@@ -211,7 +213,7 @@ var codecDispTimeouts int
 
 func codecDispWait() <-chan time.Time {
 	if codecDispTimeouts >= 5 {
-		return time.After(150 * time.Millisecond)
+		return time.After(50 * time.Millisecond)
 	}
 	return time.After(2 * time.Second)
 }
@@ -231,9 +233,14 @@ func codecDisp(tok []string) string {
 	defer cli.Close()
 	rw := &codecDispRW{r: srv, total: len(stream), atEnd: make(chan struct{}), wsig: make(chan struct{}, 1)}
 	d := msg.NewDispatcher(rw)
+	// hspec "A…": every handler (and the default handler) is wrapped in msg.AsyncHandler, as frps does for the
+	// nat-hole messages and frpc for ReqWorkConn: each call runs on a goroutine of its own, so calls are a multiset
+	async := strings.HasPrefix(hspec, "A")
 	var calls []codecCall
+	var cmu sync.Mutex
+	csig := make(chan struct{}, 1)
 	mk := func(id int) func(msg.Message) {
-		return func(m msg.Message) {
+		f := func(m msg.Message) {
 			name := "?"
 			val := "?"
 			if t := reflect.TypeOf(m); t != nil && t.Kind() == reflect.Pointer && !reflect.ValueOf(m).IsNil() {
@@ -242,10 +249,25 @@ func codecDisp(tok []string) string {
 			} else if m == nil {
 				name = "nil"
 			}
-			calls = append(calls, codecCall{id, name, rw.delivered, val})
+			if !async {
+				calls = append(calls, codecCall{id, name, rw.delivered, val})
+				return
+			}
+			cmu.Lock()
+			calls = append(calls, codecCall{id, name, 0, val})
+			cmu.Unlock()
+			select {
+			case csig <- struct{}{}:
+			default:
+			}
 		}
+		if async {
+			return msg.AsyncHandler(f)
+		}
+		return f
 	}
-	if hspec != "H-" {
+	handled := map[byte]bool{}
+	if hspec != "H-" && hspec != "A-" {
 		for _, p := range strings.Split(hspec[1:], ",") {
 			kv := strings.SplitN(p, ":", 2)
 			t, ok := codecSample[byte(atoi(kv[0]))]
@@ -253,6 +275,7 @@ func codecDisp(tok []string) string {
 				return "badhandler"
 			}
 			d.RegisterHandler(reflect.New(t).Interface(), mk(atoi(kv[1])))
+			handled[byte(atoi(kv[0]))] = true
 		}
 	}
 	if dspec != "-" {
@@ -298,7 +321,45 @@ func codecDisp(tok []string) string {
 	// a snapshot is only race free when the loop is known to be parked (alive: blocked in Read) or gone (done)
 	var snap []codecCall
 	off := -1
-	if state != "stuck" {
+	if state != "stuck" && async {
+		// the goroutines of the calls have been started, not necessarily run: wait (event driven) for as many
+		// calls as the harness' own reading of the stream expects (encoding/json directly, not frp's decoder —
+		// it only bounds the wait, the verdict is the model's), then leave a moment for calls beyond that
+		want := codecExpectCalls(stream, handled, dspec != "-")
+		deadline := codecDispWait()
+	waitCalls:
+		for {
+			cmu.Lock()
+			n := len(calls)
+			cmu.Unlock()
+			if n >= want {
+				break
+			}
+			select {
+			case <-csig:
+			case <-deadline:
+				codecDispTimeouts++
+				break waitCalls
+			}
+		}
+		for i := 0; i < 20; i++ {
+			runtime.Gosched()
+		}
+		time.Sleep(300 * time.Microsecond)
+		cmu.Lock()
+		snap = append(snap, calls...)
+		cmu.Unlock()
+		sort.Slice(snap, func(a, b int) bool {
+			if snap[a].id != snap[b].id {
+				return snap[a].id < snap[b].id
+			}
+			if snap[a].typ != snap[b].typ {
+				return snap[a].typ < snap[b].typ
+			}
+			return snap[a].val < snap[b].val
+		})
+		off = rw.delivered
+	} else if state != "stuck" {
 		snap = append(snap, calls...)
 		off = rw.delivered
 	}
@@ -320,7 +381,7 @@ func codecDisp(tok []string) string {
 			select {
 			case <-d.Done():
 				after = "eofdone"
-				if len(calls) != len(snap) {
+				if !async && len(calls) != len(snap) {
 					after = "eofdone+calls"
 				}
 			case <-codecDispWait():
@@ -335,6 +396,28 @@ func codecDisp(tok []string) string {
 		cs = append(cs, fmt.Sprintf("%d:%s@%d:%s", c.id, c.typ, c.off, c.val))
 	}
 	return fmt.Sprintf("%s C[%s] %s@%d %s S%s", codecStreamTrees(stream), strings.Join(cs, ";"), state, off, after, hex.EncodeToString(wr))
+}
+
+// codecExpectCalls: how many handler calls the harness' own reading of the stream expects — frames split by
+// the harness, bodies judged by encoding/json directly the way golib's unpack uses it.  Used only to bound a wait.
+func codecExpectCalls(stream []byte, handled map[byte]bool, dflt bool) int {
+	n := 0
+	for i := 0; i+9 <= len(stream); {
+		t, ok := codecSample[stream[i]]
+		l := int64(binary.BigEndian.Uint64(stream[i+1 : i+9]))
+		if !ok || l < 0 || l > 10240 || i+9+int(l) > len(stream) {
+			break
+		}
+		var m any = reflect.New(t).Interface()
+		if err := json.Unmarshal(stream[i+9:i+9+int(l)], &m); err != nil || m == nil {
+			break
+		}
+		if handled[stream[i]] || dflt {
+			n++
+		}
+		i += 9 + int(l)
+	}
+	return n
 }
 
 // ---------------------------------------------------------------- sess (live frps)
@@ -363,7 +446,7 @@ func codecCountPings(stream []byte) int {
 		if l < 0 || l > 10240 || i+9+int(l) > len(stream) {
 			break
 		}
-		if stream[i] == 'h' {
+		if stream[i] == 'h' || stream[i] == 'p' { // Ping → Pong, NewProxy → NewProxyResp (both handled synchronously)
 			n++
 		}
 		i += 9 + int(l)
@@ -386,7 +469,7 @@ func codecSess(pre, post []byte) string {
 	var preNames []string
 	if len(pre) > 0 {
 		_, _ = rw.Write(pre)
-		// the generator's pre part consists of well-formed frames: one Pong is due per Ping
+		// the generator's pre part consists of well-formed frames: one Pong is due per Ping, one NewProxyResp per NewProxy
 		preNames, _ = codecReadReplies(c, rw, codecCountPings(pre), 3*time.Second)
 	}
 	if len(post) > 0 {
@@ -476,10 +559,82 @@ func (j *cdJ) write(b *bytes.Buffer, sortKeys bool) {
 }
 
 var cdShortStr = []string{"", "a", "p", "tcp", "frp", "0.61.0", "example.com", "k", "yes", "true", "6000", "1700000000", "né", "quote\"\\", "null", "{}"}
-var cdIntTexts = []string{"0", "1", "-1", "7", "6000", "65535", "65536", "1700000000", "-11", "2147483648", "9223372036854775807", "-9223372036854775808"}
+var cdIntTexts = []string{"0", "-0", "1", "-1", "7", "6000", "65535", "65536", "1700000000", "-11", "2147483648", "9223372036854775807", "-9223372036854775808"}
 var cdU16Texts = []string{"0", "1", "80", "443", "6000", "65535"}
 var cdIPTexts = []string{"", "1.2.3.4", "127.0.0.1", "0.0.0.0", "255.255.255.255", "10.0.0.7"}
-var cdUnknownKeys = []string{"x", "extra", "unknown_field", "zz", "_", "v2", "time_stamp"}
+
+// address texts of both families, well-formed and not, built from pieces: hex groups with and without leading
+// zeros / upper case, `::` at every position, embedded IPv4 tails, and the ways to get them wrong (too many / too
+// few groups, a second `::`, five digits, stray colons, zones, octets with leading zeros or above 255).
+// Which of them net.ParseIP (standard library, trusted) takes decides the pool a text goes to; the verdict on the
+// frame is the model's.
+var cdIPGood, cdIPBad []string
+
+func init() {
+	rng := rand.New(rand.NewSource(17))
+	grp := func() string {
+		return pick(rng, []string{"0", "0", "1", "db8", "2001", "ffff", "FFFF", "00a", "0000", "AbCd", "fe80", "c", "7f"})
+	}
+	v4 := func() string {
+		return pick(rng, []string{"1.2.3.4", "127.0.0.1", "0.0.0.0", "255.255.255.255", "10.0.0.7", "192.168.1.254"})
+	}
+	seen := map[string]bool{}
+	add := func(t string) {
+		if seen[t] || len(t) > 60 {
+			return
+		}
+		seen[t] = true
+		if net.ParseIP(t) != nil {
+			cdIPGood = append(cdIPGood, t)
+		} else if t != "" {
+			cdIPBad = append(cdIPBad, t)
+		}
+	}
+	for _, t := range []string{"::", "::1", "1::", "::ffff:1.2.3.4", "::1.2.3.4", "64:ff9b::10.0.0.7", "0:0:0:0:0:ffff:102:304",
+		"1:2:3:4:5:6:7:8", "1:2:3:4:5:6:1.2.3.4", "0:0:0:0:0:0:0:0", "1:0:0:2:0:0:0:3", "1:0:0:0:2:0:0:3", "0:0:1:0:0:1:0:0",
+		"fe80::1%eth0", "::1%", "%eth0", ":::", ":", "1:", ":1", "1::2::3", "12345::", "1:2:3:4:5:6:7", "1:2:3:4:5:6:7:8:9",
+		"1:2:3:4:5:6:7::", "::2:3:4:5:6:7:8", "1:2:3:4:5:6:7::8", "1.2.3", "1.2.3.4.5", "01.2.3.4", "1.2.3.256", "1..2.3", ".1.2.3",
+		"1.2.3.4.", "1.2.3.4:80", "[::1]", "::g", "1:2:3:4:5:1.2.3.4", "::1.2.3", "::1.2.3.04", "1.2.3.4::", "::ffff:1.2.3.4:5",
+		" 1.2.3.4", "1.2.3.4 ", "1.2.3.-4", "١.٢.٣.٤", "localhost", "not-an-ip", "1234", "zz"} {
+		add(t)
+	}
+	for n := 0; n < 600; n++ {
+		k := 1 + rng.Intn(9)
+		var parts []string
+		for i := 0; i < k; i++ {
+			parts = append(parts, grp())
+		}
+		t := strings.Join(parts, ":")
+		switch rng.Intn(8) {
+		case 0, 1, 2: // one :: somewhere
+			i := rng.Intn(k + 1)
+			t = strings.Join(parts[:i], ":") + "::" + strings.Join(parts[i:], ":")
+		case 3: // an IPv4 tail
+			t += ":" + v4()
+		case 4: // :: and an IPv4 tail
+			i := rng.Intn(k + 1)
+			t = strings.Join(parts[:i], ":") + "::" + strings.Join(parts[i:], ":")
+			if !strings.HasSuffix(t, ":") {
+				t += ":"
+			}
+			t += v4()
+		case 5: // damaged: a character replaced / inserted / dropped
+			b := []byte(t)
+			i := rng.Intn(len(b))
+			switch rng.Intn(3) {
+			case 0:
+				b[i] = pick(rng, []byte(":.%gG0f "))
+			case 1:
+				b = append(b[:i], append([]byte{pick(rng, []byte(":.%0f"))}, b[i:]...)...)
+			default:
+				b = append(b[:i], b[i+1:]...)
+			}
+			t = string(b)
+		}
+		add(t)
+	}
+}
+var cdUnknownKeys = []string{"x", "extra", "unknown_field", "zz", "_", "v2", "time_stamp", "né", "ключ", "t\u0131mestamp", "vers\u0130on", "\u212a", "erro\u0280", "pr\u00efvilege_key"}
 
 var cdIPType = reflect.TypeOf(net.IP{})
 
@@ -547,6 +702,9 @@ func cdValid(rng *rand.Rand, t reflect.Type, depth int) *cdJ {
 		return o
 	case reflect.Slice:
 		if t == cdIPType {
+			if rng.Intn(2) == 0 {
+				return cdStr(pick(rng, cdIPGood))
+			}
 			return cdStr(pick(rng, cdIPTexts))
 		}
 		var l []*cdJ
@@ -618,14 +776,14 @@ func cdWrong(rng *rand.Rand, t reflect.Type) *cdJ {
 			func() *cdJ { return cdNum(pick(rng, []string{"1.5", "1e3", "0.0", "6000.0", "1E400", "-2.5e-3"})) }})()
 	case reflect.Uint16:
 		return pick(rng, []func() *cdJ{str, boo, obj, arr,
-			func() *cdJ { return cdNum(pick(rng, []string{"65536", "-1", "70000", "4294967296", "-65535"})) },
+			func() *cdJ { return cdNum(pick(rng, []string{"65536", "-1", "-0", "70000", "4294967296", "-65535"})) },
 			func() *cdJ { return cdNum(pick(rng, []string{"1.5", "8e1", "80.0"})) }})()
 	case reflect.Map:
 		return pick(rng, []func() *cdJ{str, num, boo, arr,
 			func() *cdJ { return cdObj().set("a", cdStr("ok")).set("b", pick(rng, []func() *cdJ{num, boo, obj, arr})()) }})()
 	case reflect.Slice:
 		if t == cdIPType {
-			return pick(rng, []func() *cdJ{num, boo, obj, arr, func() *cdJ { return cdStr(pick(rng, []string{"not-an-ip", "localhost", "1234", "zz"})) }})()
+			return pick(rng, []func() *cdJ{num, boo, obj, arr, func() *cdJ { return cdStr(pick(rng, cdIPBad)) }, func() *cdJ { return cdStr(pick(rng, cdIPBad)) }})()
 		}
 		if t.Elem().Kind() == reflect.String {
 			return pick(rng, []func() *cdJ{str, num, boo, obj,
@@ -651,7 +809,23 @@ func cdWrong(rng *rand.Rand, t reflect.Type) *cdJ {
 
 func cdFlipCase(rng *rand.Rand, k string) string {
 	b := []byte(k)
-	switch rng.Intn(3) {
+	switch rng.Intn(4) {
+	case 3: // the two non-ASCII runes encoding/json folds onto ASCII letters: KELVIN SIGN ~ k, LONG S ~ s
+		var idx []int
+		for i, c := range b {
+			if c == 'k' || c == 'K' || c == 's' || c == 'S' {
+				idx = append(idx, i)
+			}
+		}
+		if len(idx) == 0 {
+			return strings.ToUpper(k)
+		}
+		i := pick(rng, idx)
+		r := "\u212a"
+		if b[i] == 's' || b[i] == 'S' {
+			r = "\u017f"
+		}
+		return k[:i] + r + k[i+1:]
 	case 0:
 		return strings.ToUpper(k)
 	case 1:
@@ -807,9 +981,13 @@ func cdGenDisp(rng *rand.Rand) string {
 		}
 		hs = append(hs, fmt.Sprintf("%d:%d", t, i+1))
 	}
-	h := "H-"
+	hp := "H"
+	if rng.Intn(6) == 0 { // all handlers wrapped in msg.AsyncHandler
+		hp = "A"
+	}
+	h := hp + "-"
 	if len(hs) > 0 {
-		h = "H" + strings.Join(hs, ",")
+		h = hp + strings.Join(hs, ",")
 	}
 	d := "-"
 	if rng.Intn(2) == 0 {
@@ -819,8 +997,10 @@ func cdGenDisp(rng *rand.Rand) string {
 		pick(rng, []int{0, 0, 1, 3}), hxb(stream))
 }
 
-// the types a live frps control connection ignores (no handler, no default handler) besides Ping
-var cdSessQuiet = []byte{'h', 'h', 'h', 'h', 'h', 'h', 'h', '4', 'r', 's', '1', '2', '3', 'u', 'o', 'w', 'v', 'm', '5'}
+// what the well-formed part of a sess stream is made of: Ping (→ Pong), NewProxy (→ exactly one NewProxyResp,
+// whatever the proxy layer makes of the generated configuration), CloseProxy and NatHoleReport (handled, no reply),
+// and the types a frps control connection ignores (no handler, no default handler)
+var cdSessQuiet = []byte{'h', 'h', 'h', 'h', 'h', 'h', 'p', 'p', 'p', 'c', '6', '4', 'r', 's', '1', '2', '3', 'u', 'o', 'w', 'v', 'm', '5'}
 
 func cdGenSess(rng *rand.Rand) string {
 	pre, post := cdStream(rng, cdSessQuiet, []byte{'h'})
